@@ -182,19 +182,51 @@ def run(f, fixture, rep, cfg, tier):
                       "an accepted character can be followed by the next one without being remembered: the adjacency test then compares against a stale character", vs.span)
     vc = f.one("filecaps::validate_capset")
     tc = TermBuilder(vc)
-    cont = [c for c in vc.calls() if c.decl.endswith("<impl [T]>::contains")]
+    # the lookup may sit in validate_capset, in a closure it passes to an iterator adaptor, or in a helper of either
+    vcone = [vc]
+    work = list(f.closures_of(vc))
+    while work:
+        x = work.pop()
+        if x not in vcone:
+            vcone.append(x)
+            work += f.closures_of(x)
     names = None
-    if rep.check(len(cont) == 1, "R5", "capset|contains", "capability names are looked up in a table", "validate_capset no longer looks names up in a table", vc.span):
-        for lf in vc.origins(cont[0].args[0]):
-            if lf["kind"] == "const" and lf["k"].get("item"):
-                c = f.consts.get(lf["k"]["item"])
-                if c and c.get("strs"):
-                    names = c["strs"]
+    table_refs = 0
+
+    def const_items(x):
+        for bb in x.reachable():
+            for st in x.stmts(bb):
+                if st["k"] == "assign":
+                    yield from _items(st["rv"])
+            t = x.term(bb)
+            for a in t.get("args", []) or []:
+                yield from _items(a)
+
+    def _items(o):
+        if isinstance(o, dict):
+            k = o.get("k")
+            if isinstance(k, dict) and k.get("item"):
+                yield k["item"]
+            for v in o.values():
+                if isinstance(v, (dict, list)):
+                    yield from _items(v)
+        elif isinstance(o, list):
+            for v in o:
+                yield from _items(v)
+    for x in vcone:
+        for it in const_items(x):
+            c = f.consts.get(it)
+            if c and c.get("strs"):
+                names = c["strs"]
+                table_refs += 1
+    lookups = [c for x in vcone for c in x.calls() if re.search(r"(<impl \[T\]>::contains|Iterator::any|Iterator::find|Iterator::position|<impl \[T\]>::binary_search)$", c.decl)]
+    if rep.check(table_refs >= 1 and bool(lookups), "R5", "capset|contains", "capability names are looked up in a table", "validate_capset no longer looks names up in a table", vc.span):
         rep.check(names is not None and sorted(names) == sorted(LINUX_CAPS), "R5", "capset|names", "the table holds the %d Linux capability names" % len(LINUX_CAPS),
                   "the capability table differs from capability.h: missing %s, extra %s" % (sorted(set(LINUX_CAPS) - set(names or [])), sorted(set(names or []) - set(LINUX_CAPS))), vc.span)
-        looked = render(tc.term(cont[0].args[1]))
-        rep.check("to_uppercase(" in looked and "std::iter::Iterator::next(core::str::<impl str>::split(s" in looked, "R5", "capset|per-name",
-                  "each comma-separated name is upper-cased and looked up", "the looked-up value is %s" % looked[:160], vc.span)
+        ups = [c for x in vcone for c in x.calls() if c.decl.endswith("to_uppercase") or c.decl.endswith("to_ascii_uppercase") or c.decl.endswith("eq_ignore_ascii_case")]
+        splits = [c for c in vc.calls() if c.decl.endswith("<impl str>::split") and any("','" in render(tc.term(a)) for a in c.args[1:])]
+        rep.check(bool(ups) and bool(splits), "R5", "capset|per-name",
+                  "each comma-separated name is upper-cased and looked up", "validate_capset no longer splits at ',' (%d) and upper-cases (%d) each name" % (len(splits), len(ups)), vc.span)
     alls = [c for c in vc.calls() if c.decl.endswith("eq_ignore_ascii_case")]
     rep.check(len(alls) == 1 and any('"all"' in render(tc.term(a)) for a in alls[0].args), "R5", "capset|all", "'all' is accepted case-insensitively",
               "the 'all' shortcut is no longer an eq_ignore_ascii_case(\"all\") test", vc.span)
